@@ -317,6 +317,41 @@ func c09AggrItems() []c09Aggr {
 		}
 		return c09Fold("min", vs), true
 	}})
+	// several aggregate calls with different arguments in one field
+	out = append(out, c09Aggr{"sum(int(value)) - sum(strlen(key))", "int", func(ps []store.Pair) (ref.Val, bool) {
+		vs, ok := c09Nums(ps, false)
+		if !ok {
+			return ref.Val{}, false
+		}
+		var n int64
+		for _, p := range ps {
+			n += int64(len(p.K))
+		}
+		return arith("-", c09Fold("sum", vs), ref.I(n))
+	}})
+	out = append(out, c09Aggr{"max(strlen(key)) * 100 + min(strlen(value))", "", func(ps []store.Pair) (ref.Val, bool) {
+		var mk, mv int64 = 0, 1 << 40
+		for _, p := range ps {
+			if int64(len(p.K)) > mk {
+				mk = int64(len(p.K))
+			}
+			if int64(len(p.V)) < mv {
+				mv = int64(len(p.V))
+			}
+		}
+		if len(ps) == 0 {
+			return ref.Val{}, false
+		}
+		return ref.I(mk*100 + mv), true
+	}})
+	out = append(out, c09Aggr{"group_concat(key, '') + '/' + group_concat(value, '')", "", func(ps []store.Pair) (ref.Val, bool) {
+		a, b := "", ""
+		for _, p := range ps {
+			a += p.K
+			b += p.V
+		}
+		return ref.T(a + "/" + b), true
+	}})
 	// arithmetic with an aggregate field that is named before the select list
 	// defines it (c09Case.query appends `count(1) as cn` behind the aggregates)
 	out = append(out, c09Aggr{"sum(int(value)) + cn", "int", func(ps []store.Pair) (ref.Val, bool) {
@@ -575,6 +610,9 @@ func (c09) RunUnit(t core.Tier, u int, r *core.Reporter) {
 		if strings.Contains(a.text, "cn") && (len(un.groups) > 1 || t == core.Quick && len(un.groups) == 1 && un.groups[0] > 3) {
 			continue // (forward references: without grouping and with one grouping expression)
 		}
+		if t == core.Quick && len(un.groups) > 1 && (strings.Contains(a.text, "sum(strlen(key))") || strings.Contains(a.text, "max(strlen(key)) * 100") || strings.Contains(a.text, "+ '/' +")) {
+			continue // (quick tier: several differently fed aggregates in one field, with at most one grouping expression)
+		}
 		if need, ok := c09AliasAggr[a.text]; ok {
 			has := false
 			for _, gi := range un.groups {
@@ -588,6 +626,9 @@ func (c09) RunUnit(t core.Tier, u int, r *core.Reporter) {
 		for _, as := range [][]int{{ai}, {0, ai}} {
 			if ai == 0 && len(as) == 2 {
 				continue
+			}
+			if t == core.Quick && len(as) == 2 && (ai+gsum)%3 != 0 {
+				continue // quick tier: a third of the aggregate items also next to count(1)
 			}
 			for wi := range c09Wheres {
 				if len(as) == 2 && wi == 2 {
